@@ -622,45 +622,37 @@ func selectArmBody(s *ssa.Select, i int) *ssa.BasicBlock {
 }
 
 func drainLoopsN(fn *ssa.Function) bool {
-	// shape: for i := 0; i < n; i++ { <-ch }
+	// whatever the form of the loop (counting up to n, counting n down, ...): walking the function
+	// with n = 0, 1, 2, 5 (and a negative n) executes the receive exactly max(n, 0) times
 	if len(fn.Params) != 2 {
 		return false
 	}
 	n := fn.Params[1]
-	ok := false
-	core.Instrs(fn, func(b *ssa.BasicBlock, _ int, ins ssa.Instruction) {
-		u, isU := ins.(*ssa.UnOp)
-		if !isU || u.Op != token.ARROW || !core.InLoop(b) {
-			return
+	for _, k := range []int64{-1, 0, 1, 2, 5} {
+		recv := int64(0)
+		w := &core.Walker{Fn: fn}
+		w.Oracle = func(v ssa.Value) (core.WVal, bool) {
+			if v == ssa.Value(n) {
+				return core.WInt(k), true
+			}
+			return core.WVal{}, false
 		}
-		// the loop condition compares the induction variable with n
-		for _, cd := range core.CondsAt(b) {
-			op, x, y, isCmp := core.BinCmp(cd.V)
-			if !isCmp {
-				continue
+		w.OnInstr = func(ins ssa.Instruction, _ *core.Walker) bool {
+			if u, ok := ins.(*ssa.UnOp); ok && u.Op == token.ARROW {
+				recv++
 			}
-			// i < n on the loop side, in either operand order / polarity
-			if !cd.True {
-				switch op {
-				case token.GEQ:
-					op = token.LSS
-				case token.LEQ:
-					op = token.GTR
-				default:
-					continue
-				}
-			}
-			if op == token.GTR {
-				op, x, y = token.LSS, y, x
-			}
-			if op == token.LSS && y == ssa.Value(n) {
-				if _, isPhi := x.(*ssa.Phi); isPhi {
-					ok = true
-				}
-			}
+			return false
 		}
-	})
-	return ok
+		w.Run()
+		want := k
+		if want < 0 {
+			want = 0
+		}
+		if w.Err != "" || recv != want {
+			return false
+		}
+	}
+	return true
 }
 
 // ---- R15.4 blocking-op audit -------------------------------------------------------
